@@ -448,6 +448,22 @@ func NewSpec(seed uint64, prop string) *Spec {
 			root.Fields = append(root.Fields, &field{Name: name, TName: name, N: &node{Kind: "tptr", Elem: e}})
 		}
 	}
+	if prop == "C07" {
+		// a named struct that contains itself through a slice or a map (the generated method
+		// calls ITSELF), its fallible field declared before the recursive one; reached from a
+		// root through a plain field. Appended after every other draw.
+		tree := &node{Kind: "struct", ID: s.id()}
+		s.Structs[tree.ID] = tree
+		tree.Fields = append(tree.Fields, &field{Name: "Val", TName: "Val", N: s.leafNoMap()})
+		self := &node{Kind: "ref", ID: tree.ID}
+		if ctxHash(seed, 9)%2 == 0 {
+			tree.Fields = append(tree.Fields, &field{Name: "Kids", TName: "Kids", N: &node{Kind: "slice", Elem: self}})
+		} else {
+			tree.Fields = append(tree.Fields, &field{Name: "Sub", TName: "Sub", N: &node{Kind: "map", Key: &node{Kind: "basic", Basic: "string"}, Elem: self}})
+		}
+		root := s.Roots[int(ctxHash(seed, 10)%uint64(len(s.Roots)))]
+		root.Fields = append(root.Fields, &field{Name: "Tr", TName: "Tr", N: &node{Kind: "ref", ID: tree.ID}})
+	}
 	if prop == "C07" && s.Seed%4 == 1 {
 		for _, id := range sortedIDs(s.Leaves) {
 			if s.Leaves[id].Mode == "extend" {
